@@ -326,7 +326,7 @@ def run(run):
     # code -> spec: random multi-sheet workbooks under random histories, every evaluation judged by TLC (Trace_Local)
     from checks import wbdrive
     v = wbdrive.run_driver(run, 1200 if run.tier == 'quick' else 20000, mix='c05')
-    if v.get('ok', 0) < 2000:
+    if sum(n for k, n in v.items() if k != 'open') < 2000:
         raise xl.MachineryError(f'random workbook driver is vacuous: {dict(v)}')
     run.assumptions.append('footprint is measured with gc.get_objects() and tracemalloc after gc.collect(); slack 200 objects / 128 KiB per batch')
 
